@@ -6,6 +6,7 @@ argv[1] = behaviour:
   ignore_sigterm    ignores SIGTERM, announces readiness, then serves; ignores stdin EOF
   never_read        never reads stdin; sleeps
   flood             writes notifications to stdout endlessly
+  flood_graceful    the same, but exits with status 0 on SIGTERM
   close_stdout      closes stdout, then sleeps
   close_stdin       closes stdin, then sleeps (still holds stdout)
   slow_start:<s>    sleeps s seconds, then behaves well
@@ -86,6 +87,17 @@ elif beh.startswith("sigterm_slow:"):
 elif beh == "never_read":
     out({"jsonrpc": "2.0", "method": "notifications/ready"})
     time.sleep(3600)
+elif beh == "flood_graceful":
+    # floods its stdout, but shuts down "cleanly" (status 0) when asked to terminate
+    signal.signal(signal.SIGTERM, lambda sig, frm: os._exit(0))
+    out({"jsonrpc": "2.0", "method": "notifications/ready"})
+    blob = (json.dumps({"jsonrpc": "2.0", "method": "notifications/message",
+                        "params": {"level": "debug", "data": "x" * 512}}) + "\n").encode() * 32
+    try:
+        while True:
+            os.write(1, blob)
+    except OSError:
+        os._exit(0)
 elif beh == "flood":
     out({"jsonrpc": "2.0", "method": "notifications/ready"})
     blob = (json.dumps({"jsonrpc": "2.0", "method": "notifications/message",
